@@ -201,17 +201,17 @@ theorem idealGo_spec (base : Nat) : ∀ (l : List Nat) (rem : Nat) (m : Cnt), l.
       rcases List.mem_cons.mp hx with h | h
       · subst h; rw [hs]; omega
       · have := i2 x h
-        refine ⟨this.1, ?_⟩
-        have h2 := this.2
-        by_cases hr : 0 < rem - 1
-        · have : 0 < rem := by omega
-          simp [hr] at h2; simp [this]; exact h2
-        · simp [hr] at h2; omega
+        have hmono : (if 0 < rem - 1 then 1 else 0 : Nat) ≤ (if 0 < rem then 1 else 0) := by
+          by_cases hr : 0 < rem - 1
+          · have : 0 < rem := by omega
+            simp [hr, this]
+          · simp [hr]
+        exact ⟨this.1, Nat.le_trans this.2 (Nat.add_le_add_left hmono _)⟩
     · simp only [List.map_cons, List.sum_cons, hs, i3, List.length_cons, Nat.succ_mul]
       by_cases hr : 0 < rem
       · simp [hr]; omega
       · have : rem = 0 := by omega
-        subst this; simp
+        subst this; simp; omega
 
 theorem idealCounts_spec (H : Nat) (slots : List Nat) (hnd : slots.Nodup) (hne : slots.length ≠ 0) :
     (∀ s, s ∉ slots → cget (idealCounts H slots) s = 0) ∧
@@ -236,7 +236,7 @@ theorem idealCounts_spec (H : Nat) (slots : List Nat) (hnd : slots.Nodup) (hne :
     have h1 := Nat.mod_lt H hpos
     have h2 := Nat.div_add_mod H slots.length
     have h3 : min (H % slots.length) slots.length = H % slots.length := by omega
-    rw [h3, Nat.mul_comm]; exact h2
+    rw [h3]; exact h2
 
 /-! ### the initial state of a planner satisfies the invariant -/
 
@@ -289,7 +289,9 @@ theorem planOK_valid (t : Table) (ks ds : List Nat) (p : List Move)
       rcases Nat.lt_or_ge m.hs t.asg.length with h | h
       · exact h
       · rw [List.getElem?_eq_none h] at hx; cases hx
-    simp [hlt, List.getD_eq_getElem?_getD, hx, a2]
+    have hget : t.asg[m.hs] = m.src := by
+      rw [List.getElem?_eq_getElem hlt] at hx; exact Option.some.inj hx
+    simp [hlt, hget, a2]
   · cases a1
 
 theorem mem_specApply (a : List Nat) (p : List Move) (x : Nat) (h : x ∈ specApply a p) :
